@@ -282,6 +282,82 @@ func c06wide(c *vt.Ctx, L, extra int, ctrl *sched.Controller) {
 	c.Eval(1)
 }
 
+// c06cancelRace: a waiter is cancelled in the very step in which a slot becomes free.
+// Whichever way that goes for the cancelled call - it is answered with the cancellation
+// error without having run, or it got the slot and ran - the slot itself is not lost:
+// the next waiter starts, and in the end every call is answered.
+func c06cancelRace(c *vt.Ctx, L int, cancelFirst bool, ctrl *sched.Controller) {
+	peer.Bubble(c, ctrl, func() {
+		rig := peer.NewServerRig(c, ctrl, peer.ServerOpts{Concurrency: L})
+		what := fmt.Sprintf("cancel/release race: Concurrency %d, cancel first: %v", L, cancelFirst)
+		id := 0
+		send := func(tag string) string {
+			id++
+			rig.Send(peer.Req(fmt.Sprint(id), "g", tag))
+			return fmt.Sprint(id)
+		}
+		for i := 0; i < L; i++ {
+			send(fmt.Sprintf("run%d", i))
+		}
+		rig.Settle()
+		w1 := send("w1")
+		send("w2")
+		send("w3")
+		rig.Settle()
+		if cancelFirst {
+			rig.Srv.CancelRequest(w1)
+			if ctrl.HasDelays() {
+				ctrl.Quiesce()
+			}
+			rig.H.Release("run0")
+		} else {
+			rig.H.Release("run0")
+			if ctrl.HasDelays() {
+				ctrl.Quiesce()
+			}
+			rig.Srv.CancelRequest(w1)
+		}
+		rig.Settle()
+		if got := rig.H.Running(); got != L {
+			c.Failf("%s: after one running call returned and waiter w1 was cancelled in the same step, %d handlers are running, want %d (two more calls are waiting)", what, got, L)
+		}
+		rig.H.ReleaseAll()
+		rig.Settle()
+		answered := map[string]peer.Msg{}
+		for _, rec := range rig.Outbound() {
+			if ms, _, err := peer.Decode(rec); err == nil {
+				for _, m := range ms {
+					answered[string(m.ID)] = m
+				}
+			}
+		}
+		for k := 1; k <= id; k++ {
+			m, ok := answered[fmt.Sprint(k)]
+			switch {
+			case !ok:
+				c.Failf("%s: call %d was never answered (a slot was lost)", what, k)
+			case fmt.Sprint(k) == w1:
+				ran := rig.Log.Count("h.enter", "w1") > 0
+				if m.Error != nil && (m.Error.Code != -32097 || ran) || m.Error == nil && !ran {
+					c.Failf("%s: the cancelled waiter was answered %+v / result %s, its handler ran: %v; want the cancellation error without a run, or a run with its result", what, m.Error, m.Result, ran)
+				}
+			case m.Error != nil:
+				c.Failf("%s: call %d answered with error %+v", what, k, m.Error)
+			}
+		}
+		if rig.H.MaxRunning() > L {
+			c.Failf("%s: %d handlers ran at once", what, rig.H.MaxRunning())
+		}
+		if _, ok := rig.Finish(); !ok {
+			c.Failf("%s: server did not exit after the peer closed", what)
+		}
+		c.Count("handler_runs", int(rig.H.Invocations()))
+		c.Count("events", rig.Log.Len())
+		c.Count("cancel_release_races", 1)
+	})
+	c.Eval(1)
+}
+
 func init() {
 	chk := vt.Lookup("C06")
 	if chk == nil {
@@ -362,6 +438,30 @@ func init() {
 				}
 			}
 		}
+		for _, L := range []int{1, 2} {
+			for _, cf := range []bool{true, false} {
+				L, cf := L, cf
+				id := fmt.Sprintf("X/cancel-release/L%d/cancelfirst=%v", L, cf)
+				if !yield(vt.Case{ID: id, Run: func(c *vt.Ctx) {
+					prof := sched.New()
+					c06cancelRace(c, L, cf, prof)
+					for rep := 0; rep < e.Pick(30, 300) && !c.Failed(); rep++ {
+						c06cancelRace(c, L, cf, sched.New())
+					}
+					c.Distinct(id)
+					if c.Failed() {
+						return
+					}
+					sched.DelaySets(prof.Keys(), 1, func(ds []string) bool {
+						c06cancelRace(c, L, cf, sched.New().WithDelays(ds...))
+						c.Distinct(id + "/" + join(ds))
+						return !c.Failed()
+					})
+				}}) {
+					return
+				}
+			}
+		}
 		for _, L := range []int{runtime.NumCPU() + 3, 2*runtime.NumCPU() + 1, 100} {
 			L := L
 			id := fmt.Sprintf("V/wide/L%d", L)
@@ -386,7 +486,7 @@ func init() {
 			}
 		}
 	}
-	chk.Rule += "; (V) limits above the number of CPUs (NumCPU+3, 2*NumCPU+1, 100) with 3 calls beyond the limit; (T) calls whose context - a deadline with a cause from ServerOptions.NewContext - ends while they wait for a slot: answered with a cancellation error, handler never run"
+	chk.Rule += "; (X) a waiter cancelled in the very step in which a slot becomes free (both orders, repeated, and with every single hook visit parked): the slot is not lost; (V) limits above the number of CPUs (NumCPU+3, 2*NumCPU+1, 100) with 3 calls beyond the limit; (T) calls whose context - a deadline with a cause from ServerOptions.NewContext - ends while they wait for a slot: answered with a cancellation error, handler never run"
 	chk.Rule += "; (W) every Send of the server's end held by the harness (a transport with back-pressure): L running calls, w waiting, running calls released one by one — at each quiescent point, with the finished call's reply still inside Send, the next waiter must have started"
 	chk.Rule += "; plus (S) Stop with L-1 cancellation-deaf calls and a notification holding all slots and 4 more notifications parked/queued, released one by one, and (P) L handlers blocked inside Server.Callback with further calls waiting — both with every single hook visit parked"
 }
